@@ -227,6 +227,12 @@ theorem coh_step (s : State) (m : Move) (h : Coherent s) : Coherent (step Facts.
   | bind ns name uid node ch f pf => exact coh_bind _ ns name uid node ch (coh_withFaults s f pf h)
   | deliver i f pf => exact coh_deliver _ i (coh_withFaults s f pf h)
   | resync order f pf => exact coh_resync _ order (coh_withFaults s f pf h)
+  | resyncSnap => exact coherent_of_eq h rfl rfl rfl rfl
+  | resyncRec ip f pf =>
+    simp only [step]
+    split
+    · exact h
+    · exact coherent_of_eq (resyncOne_shr _ ip _ (coh_withFaults s f pf h)).1 rfl rfl rfl rfl
   | syncPodIPs f => exact coh_syncPods _ _ (coh_withFaults s f 0 h)
   | apiRelease ip k f pf => exact coh_apiRelease _ ip k (coh_withFaults s f pf h)
   | reload pools fault => exact coh_reload _ pools (coh_withFaults s fault 0 h)
